@@ -711,6 +711,15 @@ class Engine:
             t = self.equal(ctx, a, b, identity=isinstance(op, (ast.Is, ast.IsNot)))
             yield ctx, S(t if isinstance(op, (ast.Is, ast.Eq)) else z3.Not(t))
             return
+        from .externals import DictPairs, Recorder
+        if isinstance(a, DictPairs) and isinstance(b, DictPairs):
+            # dict.items() views compare as sets of pairs
+            k = z3.Const('dp_k', V)
+            sub = lambda x_, y_: z3.ForAll([k], z3.Implies(smt.vhas(x_, k), z3.And(smt.vhas(y_, k), smt.vget(x_, k) == smt.vget(y_, k))))
+            t = {ast.LtE: sub(a.t, b.t), ast.GtE: sub(b.t, a.t), ast.Lt: z3.And(sub(a.t, b.t), z3.Not(sub(b.t, a.t))),
+                 ast.Gt: z3.And(sub(b.t, a.t), z3.Not(sub(a.t, b.t)))}[type(op)]
+            yield ctx, S(t)
+            return
         # ordering on numbers
         x, y = self.num(ctx, a), self.num(ctx, b)
         if x is None or y is None:
@@ -758,6 +767,9 @@ class Engine:
                 else self.seq_eq(ctx, self.as_seq(ctx, a), self.as_seq(ctx, b))
         if isinstance(a, Obj) and isinstance(b, Obj):
             return z3.BoolVal(a.name == b.name)
+        from .externals import Recorder as _Rec
+        if isinstance(a, _Rec) or isinstance(b, _Rec):
+            return self.to_v(ctx, a) == self.to_v(ctx, b)
         from .externals import SetV
         if isinstance(a, SetV) and isinstance(b, SetV):
             return a.arr == b.arr
@@ -1150,7 +1162,14 @@ class Engine:
         if isinstance(f, Recorder):
             k = sum(1 for n in ctx.notes if n[0] == 'api')
             r = Recorder('%s()#%d' % (f.path, k))
-            ctx.notes.append(('api', f.path, args, dict(kwargs), r))
+            if getattr(self.ext, 'recorder_raises', None) and f.path in self.ext.recorder_raises:
+                # a recorded operation that may fail: any of the exception classes the surrounding code distinguishes
+                for cls in self.ext.app_raises:
+                    c2 = ctx.fork()
+                    ex = Exc(cls, [], {'error_args': S(smt.fresh('error_args', V))} if cls.endswith('RefusedError') else {})
+                    c2.notes.append(('api', f.path, args, dict(kwargs), r, ex))
+                    yield c2, Raised(ex)
+            ctx.notes.append(('api', f.path, args, dict(kwargs), r, None))
             yield ctx, r
             return
         if isinstance(f, S) and f.sort == 'V':
